@@ -72,6 +72,13 @@ def Bin(op, l, r): return E(k="bin", op=op, l=l, r=r)
 def MRef(e, name): return E(k="mref", e=e, name=name)
 def Paren(e): return E(k="paren", e=e)
 
+def has_null_lit(n):
+    """the null literal occurs somewhere under this node"""
+    if isinstance(n, E) and n.k == "lit" and n.x == "null": return True
+    if isinstance(n, Node): return any(has_null_lit(v) for v in vars(n).values())
+    if isinstance(n, (list, tuple)): return any(has_null_lit(v) for v in n)
+    return False
+
 # ------------------------------------------------------------------ tokens
 class Tok:
     __slots__ = ("text", "glue", "line", "col", "nl_after", "kind")
@@ -489,7 +496,7 @@ def body_events(unit, stmts):
             elif k == "foreach": expr(s.it, s.type.text() if False else unit.toks[s.type.first].text); stmts_(s.body)
             elif k == "return":
                 if s.e is not None:
-                    ev.append(["return", whole(s.e)])
+                    ev.append(["return", whole(s.e), "1" if has_null_lit(s.e) else "0"])
                     expr(s.e, "return")
             elif k == "switch":
                 expr(s.e, "(")
